@@ -16,6 +16,7 @@ func blockUntilSignaled(ctx context.Context, c *sync.Cond, timeout time.Duration
 	ready := make(chan struct{})
 
 	go func() {
+		verifPoint("block.spawned")
 		c.L.Lock()
 		defer c.L.Unlock()
 		c.Wait()
